@@ -29,6 +29,7 @@ type Mutant struct {
 
 var Mutants = map[string][]Mutant{
 	"C01": {
+		{"upward scan of a tolerance square leaves Lower unset", "path_intersection.go", `(\t\t\t\t\tsquare\.Upper = next\n)\t\t\t\t\tif square\.Lower == nil \{\n(?:\t\t\t\t\t\t[^\n]*\n)+?\t\t\t\t\t\}\n`, "${1}", "E9.square-range-both-ends"},
 		{"status Remove rebalances once instead of every ancestor", "path_intersection.go", `for ; ancestor != nil; ancestor = ancestor\.parent \{`, "if ancestor != nil {", "E9.moved-node-height"},
 		{"Reverse flips the direction flag of the receiver only", "path_intersection.go", `s\.increasing, s\.other\.increasing = !s\.increasing, !s\.other\.increasing`, "s.increasing, s.other.increasing = !s.increasing, s.increasing", "E9.endpoint-pair"},
 		{"extra contours of a clipping element appended to the subject list", "path_intersection.go", `(\t\t\t\tqs\[i\] = split\[0\]\n\t\t\t\t)qs = append\(qs, split\[1:\]\.\.\.\)`, "${1}ps = append(ps, split[1:]...)", "E9.operand-lists-separate"},
@@ -49,6 +50,7 @@ var Mutants = map[string][]Mutant{
 		{"empty Q returns P for And", "path_intersection.go", `if op == opAND \{\n\t\t\treturn &Path\{\}\n\t\t\}\n\t\treturn ps\.Settle\(fillRule\)`, `return ps.Settle(fillRule)`, "E9.shortcut"},
 	},
 	"C02": {
+		{"upward scan of a tolerance square leaves Lower unset", "path_intersection.go", `(\t\t\t\t\tsquare\.Upper = next\n)\t\t\t\t\tif square\.Lower == nil \{\n(?:\t\t\t\t\t\t[^\n]*\n)+?\t\t\t\t\t\}\n`, "${1}", "E9.square-range-both-ends"},
 		{"status Remove rebalances once instead of every ancestor", "path_intersection.go", `for ; ancestor != nil; ancestor = ancestor\.parent \{`, "if ancestor != nil {", "E9.moved-node-height"},
 		{"result windings copied to the other end point for left-to-right edges only", "path_intersection.go", `(?s)(\t\t\t\tif cur\.left && !first\.open \{\n\t\t\t\t\t// we go to the right/top\n\t\t\t\t\tcur\.resultWindings\+\+\n)(\t\t\t\t\}\n)\t\t\t\tcur\.other\.resultWindings = cur\.resultWindings\n`, "${1}\t\t\t\t\tcur.other.resultWindings = cur.resultWindings\n${2}", "E9.windings-sync"},
 		{"depth plus one computed before the depth is read", "path_intersection.go", `(?s)(\t\t\twindings := 0\n)(\t\t\tprev := cur\.prev\n.*?)\t\t\tcur\.resultWindings = windings\n\t\t\tif !first\.open \{\n\t\t\t\t// we go to the right/top\n\t\t\t\tcur\.resultWindings\+\+\n\t\t\t\}\n`, "${1}\t\t\tabove := windings\n\t\t\tif !cur.open {\n\t\t\t\tabove++\n\t\t\t}\n${2}\t\t\tcur.resultWindings = above\n", "E9.depth-derived-after-read"},
